@@ -382,6 +382,11 @@ func TestRandomCommands(t *testing.T) {
 			} else {
 				args = []string{name}
 				for k, m := 0, rapid.IntRange(0, 6).Draw(t, "argc"); k < m; k++ {
+					if rapid.IntRange(0, 5).Draw(t, "oddbraces") == 0 {
+						// braces where a hash tag is not: a closing one first, empty tags, two tags, an unclosed one
+						args = append(args, rapid.SampledFrom([]string{"v}1:{a}x", "}{b}", "}a{b}k", "a{}b{a}", "{a}{b}", "x{a", "{}{a}", "}}{a}{", "{a}}", "{{a}}"}).Draw(t, "oddarg"))
+						continue
+					}
 					args = append(args, rapid.StringMatching(`(\{[ab]\})?[a-z0-9]{1,5}`).Draw(t, "arg"))
 				}
 			}
